@@ -9,6 +9,8 @@ import JunoModel.C20.ProofsMisc
 import JunoModel.C20.ProofsPoller
 import JunoModel.C20.ProofsInterleave
 import JunoModel.C20.ProofsClassAlias
+import JunoModel.C20.ProofsRun
+import JunoModel.C20.ProofsWire
 /-!
 C20 — property theorems (statements only; helper lemmas are in `Proofs*.lean`).
 Every theorem in this module is an obligation listed in evidence/C20.json with its axioms.
@@ -89,6 +91,44 @@ only in it give the same view (a code change that aligns to `highestBlockHeader`
 answers differ from the code's, and the harness' oracle fires in the windows where the two differ) -/
 theorem reader_view_ignores_cached_header (height : Nat) (c₁ c₂ : Option Nat) (s : Store) (d : Diff) :
     readerView height c₁ s d = readerView height c₂ s d := rfl
+
+/-- **The reader entry point read by read: the head may move DURING the call.** `PreConfirmedChain`
+reads the canonical chain several times with nothing held in between (`Height()`, the atomic load of the
+storage, then — only for the fallback — `HeadsHeader()` and a block-hash lookup). For any reachable
+storage, any height `h1` seen by the first read and anything `h2` the second height read answers
+(another height: the head advanced or reverted meanwhile; `none`: the chain lost its head):
+* if the storage holds slot `h1+1` the result is the snapshot aligned to `h1` — gap-free, starting at
+  `h1+1` — and the later reads are not made;
+* otherwise it is the error of the second read, the error of the block-hash lookup, or the single blank
+  block `h2+1`: a one-block view starting exactly one above the head the second read saw.
+In every case a view that is handed out starts one above A canonical head observed during the call. -/
+theorem reader_view_under_head_movement (ops : List Op) (hops : ops.length < U64) (h1 : Nat) (h2 : Option Nat)
+    (hashOf : Nat → Option Felt) :
+    let snap := snapshotFor (run ops) (h1 + 1)
+    (0 < snap.length →
+      preConfirmedChain (some h1) (run ops) h2 hashOf = .ok snap ∧
+      snap.newestFirst.length = snap.length ∧
+      snap.oldestFirst.map (·.number) = List.range' (h1 + 1) snap.length) ∧
+    (snap.length = 0 →
+      preConfirmedChain (some h1) (run ops) h2 hashOf =
+        match h2 with
+        | none => .error .header
+        | some hd =>
+          match emptyBlockDiff hashOf (hd + 1) with
+          | none => .error .blockHash
+          | some d => .ok { nodes := [emptyPreConfirmedFor hd d], length := 1 }) :=
+  ⟨preConfirmedChain_snapshot (run_wf ops hops) h1 h2 hashOf, preConfirmedChain_fallback (run ops) h1 h2 hashOf⟩
+
+/-- without a canonical head (`Height()` fails: before genesis) no view is handed out; with both height
+reads seeing the same head the method is `readerViewFull` (the case the earlier theorems are about) -/
+theorem reader_view_without_head_or_with_a_steady_head (s : Store) (h : Nat) (cached h2 : Option Nat)
+    (hashOf : Nat → Option Felt) :
+    preConfirmedChain none s h2 hashOf = .error .height ∧
+    preConfirmedChain (some h) s (some h) hashOf =
+      match readerViewFull h cached s hashOf with
+      | some v => .ok v
+      | none => .error .blockHash :=
+  ⟨rfl, preConfirmedChain_same_head s h cached hashOf⟩
 
 /-- The stored chain itself is always well formed: its linked list is nil-terminated after
 exactly `length` nodes (so no iterator or `replaceSlot` walk can run off the list), it is never
@@ -278,6 +318,17 @@ theorem writer_never_writes_published_class_maps (m : CAlias.CMem) (u : Update) 
     | delta _ _ => exact ⟨h.2.1, h.2.2.1, h.2.2.2⟩
     | noChange => exact ⟨h.2.1, h.2.2.1, h.2.2.2⟩
 
+/-- **Over whole histories: a class map, once it exists, is never written again.** Any sequence of
+callers allocating the maps they pass in, writer operations building entries and readers building states,
+in any order and number (`acts`; every map value an action mentions exists when it runs): every object of
+the memory `m` the history started from is unchanged at the end — and `m` is arbitrary, so this holds
+from any point of the history on. The caller's part of the bargain (a map handed to `ApplyUpdate` is
+never touched again by the caller) is the poller's `fetchDeclaredClasses`, which allocates one map per
+call and passes it to exactly one `apply`. -/
+theorem class_maps_immutable_over_histories (m : CAlias.CMem) (acts : List CAlias.CAct)
+    (h : CAlias.ValidHist m acts) : CAlias.Unch m.length m (acts.foldl CAlias.cstep m) :=
+  CAlias.hist_frame acts m h
+
 -- non-vacuity: two published maps (objects 0 and 1); the readers' loop allocates object 2 with both tables
 -- and leaves 0 and 1 alone; the writer's delta with no classes shares object 0, with classes allocates object 2
 example : CAlias.accumulate [[(200, 1)], [(201, 2)]] [some 0, none, some 1] =
@@ -331,6 +382,27 @@ theorem view_state_equals_canonical_overlay (ops : List Op) (hops : ops.length <
   have := (stateAt_spec (run_wf ops hops) head b baseAt).1 hb
   rw [hbase] at this
   exact ⟨_, this, overlay_reads canon _ b hvalid⟩
+
+/-- **What a transaction's state diff IS once adapted** (`sn2core.AdaptStateDiff`, transcribed as
+`adaptStateDiff`; the overlay theorems speak about adapted diffs). Every map is built by assignment in
+wire order, so a read of the adapted diff finds the LAST wire entry with that key — for storage (per
+contract and key), nonces, deployments, replacements, declarations, migrations — and a key that does not
+occur on the wire is absent; the cairo-0 declarations are the wire list itself. -/
+theorem adapted_diff_reads_last_wire_entry (w : WireDiff) :
+    (∀ a k, AMap.get (adaptStateDiff w).storage (a, k) =
+      (w.storage.reverse.find? (fun e => e.1 == (a, k))).map (·.2)) ∧
+    (∀ a, AMap.get (adaptStateDiff w).nonces a = (w.nonces.reverse.find? (fun e => e.1 == a)).map (·.2)) ∧
+    (∀ a, AMap.get (adaptStateDiff w).deployed a = (w.deployed.reverse.find? (fun e => e.1 == a)).map (·.2)) ∧
+    (∀ a, AMap.get (adaptStateDiff w).replaced a = (w.replaced.reverse.find? (fun e => e.1 == a)).map (·.2)) ∧
+    (∀ h, AMap.get (adaptStateDiff w).declaredV1 h = (w.declared.reverse.find? (fun e => e.1 == h)).map (·.2)) ∧
+    (∀ h, AMap.get (adaptStateDiff w).migrated h = (w.migrated.reverse.find? (fun e => e.1 == h)).map (·.2)) ∧
+    (adaptStateDiff w).declaredV0 = w.oldDeclared :=
+  ⟨fun _ _ => assignAll_get _ _, fun _ => assignAll_get _ _, fun _ => assignAll_get _ _, fun _ => assignAll_get _ _,
+   fun _ => assignAll_get _ _, fun _ => assignAll_get _ _, rfl⟩
+
+-- a slot written twice in one transaction's wire diff reads the later value; so does a nonce
+example : AMap.get (adaptStateDiff { storage := [((7, 1), 5), ((7, 2), 6), ((7, 1), 0)] }).storage (7, 1) = some 0 := by decide
+example : AMap.size (adaptStateDiff { storage := [((7, 1), 5), ((7, 2), 6), ((7, 1), 0)] }).storage = 2 := by decide
 
 /-- Every entry the storage ever publishes is internally consistent, for all histories: its
 block-level state diff is the merge, in order, of ALL its per-transaction diffs (whatever the
@@ -486,6 +558,15 @@ i.e. through a view the last-updated block of a slot is the newest block of the 
 requested one) that writes it. `pending.State` keeps one block number for the whole merged diff, so
 it answers the REQUESTED block for every slot any block of the view writes. -/
 
+/-- the remaining accessors of `pending.State`, as implemented: `Class(h).At` is 0 for every class the view
+carries (the canonical state would answer the declaring block) and the base's answer otherwise; the three
+trie getters are never supported -/
+theorem class_at_and_tries_through_a_view (p : PState) (h : Felt) :
+    p.clsAt h = (if AMap.has p.classes h then some 0 else p.head.clsAt h) ∧ p.trieSupported = false := by
+  refine ⟨?_, rfl⟩
+  unfold PState.clsAt AMap.has
+  cases AMap.get p.classes h <;> rfl
+
 /-- What the code answers, for every overlay (any list of blocks). -/
 theorem lastUpdated_as_implemented (es : List PreConf) (head : Base) (b : Nat) (a k : Felt) :
     (overlayOf es head b).lastUpdated a k =
@@ -563,6 +644,23 @@ content, any block number, or an error, and any `Class` call with any definition
 hold for the storages the real writer produces -/
 theorem poller_history_is_a_writer_history (ins : List TickIn) : ∃ ops : List Op, prun ins = run ops :=
   prun_reach ins
+
+/-- **`Poller.Run` around the ticks.** (1) Before genesis — while `Height()` answers
+`db.ErrKeyNotFound` to the guard at the start and at every ticker firing — `Run` touches nothing: storage
+unchanged, no endpoint call, no publication. (2) With polling disabled (`interval == 0`) likewise, for
+ever. (3) Whatever the guard answers and whenever, the storage `Run` leaves is the storage after the
+ticks that ran (`prun`), hence a writer history (`poller_history_is_a_writer_history`). (4) A tick whose
+`Height()` fails (genesis reverted under a running poller) returns the error and touches nothing. -/
+theorem poller_run_guard_and_ticks (s : Store) (g0 : Guard) (evs : List TickerEv) (i : TickIn) :
+    ((∀ ev ∈ evs, ev.guard = .notFound) → runLoop false s .notFound evs = ({ polling := false, store := s }, [])) ∧
+    runLoop true s g0 evs = ({ polling := false, store := s }, []) ∧
+    (∀ iz, ∃ ops : List Op, (runLoop iz none g0 evs).1.store = run ops) ∧
+    (i.height = none → tick s i = (s, [], some .height)) := by
+  refine ⟨runLoop_silent s evs, runLoop_disabled s g0 evs, ?_, tick_without_height s i⟩
+  intro iz
+  obtain ⟨ins, h⟩ := runLoop_is_tick_history g0 evs iz
+  obtain ⟨ops, h'⟩ := prun_reach ins
+  exact ⟨ops, h.trans h'⟩
 
 /-- **The decision rule of the class back-fill.** What a successful `fetchDeclaredClasses(storedTip,
 update)` returns has as keys EXACTLY: the classes the update's own transaction diffs declare, plus —
@@ -720,12 +818,28 @@ example : (snapshotFor (run hist) 11).length = 0 := by decide
 -- reader entry point: head 11 → the stored [12,13]; head reverted to 10 (cached header still 13) → fallback block 11
 example : (readerView 11 (some 13) (run hist) {}).oldestFirst.map (·.number) = [12, 13] := by decide
 example : (readerView 10 (some 13) (run hist) {}).oldestFirst.map (·.number) = [11] := by decide
+-- `reader_view_under_head_movement`: head 11 at the first read, reverted to 10 before the second: storage [12,13] → the snapshot for 11; empty storage → block 11
+example : (match preConfirmedChain (some 11) (run hist) (some 10) (fun _ => some 9) with
+    | .ok v => v.oldestFirst.map (·.number) | .error _ => []) = [12, 13] := by decide
+example : (match preConfirmedChain (some 11) none (some 10) (fun _ => some 9) with
+    | .ok v => v.oldestFirst.map (·.number) | .error _ => []) = [11] := by decide
+example : (preConfirmedChain (some 11) none none (fun _ => some 9) matches .error .header) = true := by decide
+
 example : (txByHash (snapshotFor (run hist) 12) 4).map (·.tag) = some 4 := by decide
 example : txByHash (snapshotFor (run hist) 12) 1 = none := by decide
 example : ((snapshotFor (run hist) 12).newestFirst.map fun e => (e.txByHash 4).map (·.2)) = [some 1, none] := by decide
 example : (receiptByHash (snapshotFor (run hist) 12) 2).map (·.2) = some 12 := by decide
 example : ((hsnapshotFor (hrun (hist.take 6)) 11).view (hrun hist).heap).map (·.number) = [13, 12, 11] := by
   decide
+-- `interleaved_readers_see_their_snapshot`: two readers and the writer. Reader 0 loads the view for head 10
+-- after 3 operations (blocks 13, 12, 11), then the writer replaces slot 12 (truncating 13), extends, appends a
+-- delta and realigns while reader 0 walks: it still yields 13, 12 (round "b"), 11. Reader 1 loads after the
+-- realignment and yields the new 13, 12 (round "b2").
+example : (match (sched (hrun (hist.take 3)) [.idle 11, .idle 12]
+      [.reader 0, .writer (hist.getD 3 default), .reader 0, .writer (hist.getD 4 default), .reader 0,
+       .writer (hist.getD 5 default), .writer (hist.getD 6 default), .reader 1, .reader 0, .reader 1, .reader 1, .reader 0]).2 with
+    | [.walking w0, .walking w1] => (w0.out.map (fun e => (e.number, e.ident)), w1.out.map (fun e => (e.number, e.ident)))
+    | _ => ([], [])) = ([(13, "c"), (12, "b"), (11, "a")], [(13, "d"), (12, "b2")]) := by decide
 -- the two boundaries
 example : (computeUpdate (run [.apply (blk "m") (U64 - 1) 0 (U64 - 1) []]) (blk "m2") (U64 - 1) 0 (U64 - 1) []
     matches .err .gap) = true := by decide
